@@ -88,11 +88,13 @@ def build(combo, rng):
     flags = rng.choice([0, bpv7.FLAG_NO_FRAGMENT, bpv7.FLAG_REQ_FORWARDING, bpv7.FLAG_USER_APP_ACK | bpv7.FLAG_REQ_STATUS_TIME,
                         # bits RFC 9171 leaves unassigned must travel unchanged as well
                         0x80, 0x100 | bpv7.FLAG_NO_FRAGMENT, 0x200000, 0x08 | bpv7.FLAG_REQ_FORWARDING])
-    if rng.random() < 0.15:
+    if rng.random() < 0.2:
         # an administrative record in transit: whole, a piece of one (as a fragment carries), or something this node cannot read
         flags |= bpv7.FLAG_ADMIN
         record = bpv7.encode_status_report([(True, None), (False, None), (False, None), (True, None)], rng.choice([1, 6, 17, 200]), 'dtn://subj/x', 5, 6)
-        blocks[-1]['data'] = rng.choice([record, record[:7], record[3:], b'\xff\x00\x01', cw.enc([9, {2: 1, 1: 2}])])
+        # (also records this node can read but would write differently: indefinite-length array, non-shortest integer heads)
+        blocks[-1]['data'] = rng.choice([record, record[:7], record[3:], b'\xff\x00\x01', cw.enc([9, {2: 1, 1: 2}]),
+                                         b'\x9f' + record[1:] + b'\xff', b'\x82\x18\x01' + record[2:], b'\x82\x19\x00\x01' + record[2:]])
     pri = dict(version=7, flags=flags, crc_type=rng.choice([0, crc]), dest=dest, src=rng.choice(['dtn://src/app', 'ipn:7.3', 'dtn:none', 'ipn:0.0', 'ipn:4294967296.1', 'dtn://src/app#', 'dtn://src/a?b#']),
                report_to=rng.choice(['dtn:none', 'dtn://rep/r', 'ipn:0.0', 'dtn://rep/r?', 'dtn://rep/a?#b']), create_time=ctime, seqno=rng.choice([0, 1, 2 ** 32]),
                lifetime=combo['lifetime'], frag_offset=None, total_adu_len=None, crc=None)
